@@ -90,7 +90,26 @@ class SymMatrix:
         return self.T
 
     def toarray(self):
-        return demote(self.a.copy())
+        return self.a.copy() if _ACTIVE[0] else demote(self.a.copy())
+
+    def _pattern(self):
+        rows, cols = [], []
+        for i in range(self.a.shape[0]):
+            for j in range(self.a.shape[1]):
+                if not _isnum0(self.a[i, j]):
+                    rows.append(i)
+                    cols.append(j)
+        counts = _np.bincount(_np.asarray(rows, dtype=int), minlength=self.a.shape[0]) if rows else _np.zeros(self.a.shape[0], dtype=int)
+        indptr = _np.concatenate([[0], _np.cumsum(counts)]).astype(_np.int32)
+        return indptr, _np.asarray(cols, dtype=_np.int32)
+
+    @property
+    def indptr(self):
+        return self._pattern()[0]
+
+    @property
+    def indices(self):
+        return self._pattern()[1]
 
     todense = toarray
 
@@ -464,7 +483,7 @@ class NpProxy:
 
     # ---- conversions with dtype=float
     def _conv(self, fn, a, dtype=None, *args, **k):
-        if _ACTIVE[0] and dtype is not None and _is_float_dtype(dtype) and has_sym(a):
+        if _ACTIVE[0] and dtype is not None and _is_float_dtype(dtype):
             return fn(a, *args, dtype=object, **k)
         return fn(a, *args, dtype=dtype, **k) if dtype is not None else fn(a, *args, **k)
 
@@ -600,8 +619,8 @@ class SparseProxy:
             data, (rows, cols) = arg1
             data = _np.asarray(data)
             if data.dtype == object:
-                if has_sym(data):
-                    USED_STUBS.add("scipy.sparse constructor with symbolic data -> dense SymMatrix (duplicates summed like COO)")
+                if _ACTIVE[0] or has_sym(data):
+                    USED_STUBS.add("scipy.sparse constructor with object data -> dense SymMatrix (duplicates summed like COO)")
                     return SymMatrix.from_coo(data, rows, cols, shape)
                 data = demote(data)
             if _is_float_dtype(dtype):
@@ -611,34 +630,40 @@ class SparseProxy:
             data, indices, indptr = arg1
             data = _np.asarray(data)
             if data.dtype == object:
-                if has_sym(data):
-                    USED_STUBS.add("scipy.sparse constructor with symbolic data -> dense SymMatrix")
+                if _ACTIVE[0] or has_sym(data):
+                    USED_STUBS.add("scipy.sparse constructor with object data -> dense SymMatrix (duplicates summed like COO)")
                     rows = _np.repeat(_np.arange(len(indptr) - 1), _np.diff(indptr))
                     return SymMatrix.from_coo(data, rows, indices, shape)
                 data = demote(data)
             return real((data, indices, indptr), shape=shape, dtype=dtype)
         if isinstance(arg1, _np.ndarray) and arg1.dtype == object:
-            if has_sym(arg1):
+            if _ACTIVE[0] or has_sym(arg1):
                 return SymMatrix(arg1.copy())
             arg1 = demote(arg1)
         return real(arg1, shape=shape, dtype=dtype)
 
-    def csr_matrix(self, arg1, shape=None, dtype=None, copy=False):
-        return self._matrix(arg1, shape, dtype, copy, _sp.csr_matrix)
+    def __init__(self):
+        proxy = self
 
-    def csc_matrix(self, arg1, shape=None, dtype=None, copy=False):
-        return self._matrix(arg1, shape, dtype, copy, _sp.csc_matrix)
+        def make(real):
+            class _Meta(type):
+                def __instancecheck__(cls, x):
+                    return isinstance(x, (real, SymMatrix))
 
-    def lil_matrix(self, arg1, shape=None, dtype=None, copy=False):
-        return self._matrix(arg1, shape, dtype, copy, _sp.lil_matrix)
+                def __call__(cls, arg1, shape=None, dtype=None, copy=False):
+                    return proxy._matrix(arg1, shape, dtype, copy, real)
 
-    def coo_matrix(self, arg1, shape=None, dtype=None, copy=False):
-        return self._matrix(arg1, shape, dtype, copy, _sp.coo_matrix)
+            return _Meta(real.__name__, (), {})
+
+        self.csr_matrix = make(_sp.csr_matrix)
+        self.csc_matrix = make(_sp.csc_matrix)
+        self.lil_matrix = make(_sp.lil_matrix)
+        self.coo_matrix = make(_sp.coo_matrix)
 
     def diags(self, diagonals, offsets=0, shape=None, format=None, dtype=None):
         d = _np.asarray(diagonals)
         if d.dtype == object:
-            if has_sym(d):
+            if _ACTIVE[0] or has_sym(d):
                 n = len(d)
                 a = _np.zeros((n, n), dtype=object)
                 for i in range(n):
